@@ -8,22 +8,31 @@
                                carries session sequence number `seq` (and, not judged here, the
                                IPMB request sequence `rq` and command `cmd`)
     rx tid serial              thread `tid` took from the socket the reply to datagram `serial`
+    to tid serial              the socket let thread `tid` time out (`socket.timeout`) while datagram
+                               `serial` was the latest one transmitted: its reply was lost
 
   and a *result list* says, for every finished call, which datagram the caller sent and which
   datagram the reply it was handed answers.
 
   The clauses of the property:
-   (X) exchanges are not interleaved: the log is  tx rx tx rx … [tx]  where each rx is taken by
-       the thread that sent the preceding tx and is the reply to exactly that datagram;
-   (S) session sequence numbers strictly increase in transmission order (the only other step
-       IPMI allows is the 32-bit wrap 0xffffffff → 1, zero being skipped);
+   (X) exchanges are not interleaved: the log is  tx (rx|to) tx (rx|to) … [tx]  where each rx / to
+       is taken by the thread that sent the preceding tx and concerns exactly that datagram
+       (a datagram whose reply is lost ends in a time-out of its sender; what follows may be
+       the retransmission, `Rmcp(max_retries >= 1)`, or the next request of any thread);
+   (S) session sequence numbers strictly increase in transmission order — over the WHOLE log,
+       retransmissions included: a retransmitted request is a new datagram of the session and
+       takes the next number (IPMI v1.5 §6.12, sequence number window: the BMC drops a repeated number as a
+       duplicate) — the only other step IPMI allows is the 32-bit wrap 0xffffffff → 1, zero
+       being skipped;
    (O) every caller got the reply to its own request: the reply answers the datagram the
-       caller itself transmitted for that call (and the call did not fail).
+       caller itself transmitted (last) for that call — or the call failed with an error, and
+       then only because the socket timed out on the datagram it had transmitted last.
    (C) session teardown (Close Session, IPMI v1.5 §18.17 / v2.0 §22.19: the session is gone once the
        BMC has answered): Close Session is the last datagram of the session — nothing is transmitted
-       after it, by any thread, the interface's own keep-alive included.  (A datagram that did
-       follow would also break (S): the console stops advancing the sequence number of a
-       session it has closed.)  A log without Close Session satisfies (C) trivially.
+       after it, by any thread, the interface's own keep-alive included; the one exception is the
+       retransmission of Close Session itself by the thread that sent it (its answer was lost).
+       (A datagram that did follow would also break (S): the console stops advancing the sequence
+       number of a session it has closed.)  A log without Close Session satisfies (C) trivially.
   Datagram numbers are positions: the n-th transmitted datagram has serial n (checked), so a
   serial names exactly one datagram.
 
@@ -38,6 +47,7 @@ namespace PyIpmi.Spec.Threads
 inductive WEv where
   | tx (tid serial seq rq cmd : Nat)
   | rx (tid serial : Nat)
+  | to (tid serial : Nat)
 deriving DecidableEq, Repr, Inhabited
 
 /-- Close Session (NetFn App, command 3Ch). -/
@@ -56,9 +66,10 @@ structure Mon where
   last : Option Nat            -- session sequence number of the latest datagram
   closed : Bool := false       -- a Close Session datagram has been transmitted
   after : Bool := true         -- clause (C) so far
+  closedBy : Option Nat := none  -- the thread that transmitted the first Close Session
 deriving DecidableEq, Repr
 
-def Mon.init : Mon := ⟨true, true, 0, none, none, false, true⟩
+def Mon.init : Mon := ⟨true, true, 0, none, none, false, true, none⟩
 
 def Mon.step (m : Mon) : WEv → Mon
   | .tx t n s _ c =>
@@ -68,8 +79,11 @@ def Mon.step (m : Mon) : WEv → Mon
       opn := some (t, n)
       last := some s
       closed := m.closed || c == closeCmd
-      after := m.after && !m.closed }
+      after := m.after && (!m.closed || (c == closeCmd && m.closedBy == some t))
+      closedBy := if m.closed then m.closedBy else if c == closeCmd then some t else none }
   | .rx t n =>
+    { m with exch := m.exch && m.opn == some (t, n), opn := none }
+  | .to t n =>
     { m with exch := m.exch && m.opn == some (t, n), opn := none }
 
 /-- Monitor state after a chronological wire log. -/
@@ -85,11 +99,18 @@ deriving DecidableEq, Repr
 def sentBy (wire : List WEv) (t n : Nat) : Bool :=
   wire.any fun e => match e with
     | .tx t' n' _ _ _ => t' == t && n' == n
-    | .rx _ _ => false
+    | _ => false
 
-/-- Clause (O). -/
+/-- Thread `t` timed out waiting for the reply to datagram `n`. -/
+def timedOut (wire : List WEv) (t n : Nat) : Bool :=
+  wire.any fun e => match e with
+    | .to t' n' => t' == t && n' == n
+    | _ => false
+
+/-- Clause (O): the reply to the caller's own datagram — or an error after a time-out on it. -/
 def ownReply (wire : List WEv) (rs : List Res) : Bool :=
-  rs.all fun r => r.got == some r.sent && sentBy wire r.tid r.sent
+  rs.all fun r => (r.got == some r.sent && sentBy wire r.tid r.sent) ||
+    (r.got == none && sentBy wire r.tid r.sent && timedOut wire r.tid r.sent)
 
 def exchangesOk (wire : List WEv) : Bool := (monitor wire).exch
 def seqIncreasing (wire : List WEv) : Bool := (monitor wire).incr
@@ -101,6 +122,7 @@ def rqDistinctFrom : Option Nat → List WEv → Bool
   | _, [] => true
   | last, .tx _ _ _ r _ :: w => (last != some r) && rqDistinctFrom (some r) w
   | last, .rx _ _ :: w => rqDistinctFrom last w
+  | last, .to _ _ :: w => rqDistinctFrom last w
 
 /-- Clause (Q) on a chronological wire log. -/
 def rqDistinct (wire : List WEv) : Bool := rqDistinctFrom none wire
